@@ -64,3 +64,37 @@ PROPS = {
         ],
     },
 }
+
+# ---------------------------------------------------------------- manifest metadata
+
+META = {
+    "C01": {"technique": "deterministic simulation: seeded fault plans over the real queue on a fake clock, conservation oracle over the recorded history",
+            "design_ref": "DESIGN.md section 6 (C01)",
+            "level_text": "Seeded exploration of fault sequences: thousands of drawn scenarios per run against the real queue with production retry timing; a reference life-cycle model decides, per recipient, exactly-one terminal outcome and the retry discipline. Sampling, not proof.",
+            "level_note": "Downstream and bounce targets are scripted stubs; disk is simulated; schedules are controlled at inserted yield points. Holds for what was sampled."},
+    "C02": {"technique": "deterministic simulation with crash-point enumeration on a simulated disk (process-stop and power-loss models, torn writes, depth 2)",
+            "design_ref": "DESIGN.md section 6 (C02)",
+            "level_text": "For each sampled scenario every crash point (before each mutating file-system call, torn writes, un-synced data dropped) is enumerated and the queue restarted on the surviving state in the same simulation; depth-2 points inside recovery sampled (quick) or enumerated up to 40 (thorough).",
+            "level_note": "Crash granularity is the file-system call (complete for durable state); power-loss model does not require directory fsync; scenarios are sampled."},
+    "C10": {"technique": "deterministic simulation: generated headers/bodies/envelopes through spool, retries and crash-restarts, byte-equality oracle at the downstream boundary, write-time credential scan on the simulated disk",
+            "design_ref": "DESIGN.md section 6 (C10)",
+            "level_text": "Seeded exploration over message shapes and retry/restart histories; every byte range written to the simulated disk is scanned for the credential marker.",
+            "level_note": "Inputs are generated, not enumerated; header comparison is on the serialised form the queue was handed."},
+    "C12": {"technique": "deterministic simulation: seeded, preemption-bounded scheduling of AST-inserted yield points in timewheel.go/queue.go with tape-controlled select and timer-first choices",
+            "design_ref": "DESIGN.md section 6 (C12)",
+            "level_text": "Controlled-interleaving exploration (delay bound 0-3 and random walks) of producers, in-flight attempts, timer expiry and one shutdown, followed by a restart; oracles: no panic, no hang, no .meta_broken, exactly-once dispatch, nothing lost over shutdown.",
+            "level_note": "Code between two yield points is treated as atomic; yield points cover channel, mutex, atomic, WaitGroup and go statements of the two files."},
+    "C18": {"technique": "deterministic simulation: dense failure plans incl. failing bounce target; reports parsed by an independent stdlib parser and compared with the attempt they follow",
+            "design_ref": "DESIGN.md section 6 (C18)",
+            "level_text": "Seeded exploration; the oracle recomputes which recipients must/may be listed from the observed transactions and the documented life cycle.",
+            "level_note": "The bounce pipeline is a scripted target; report well-formedness is judged by Go's mime/multipart and net/textproto."},
+}
+
+NOT_APPLICABLE = [
+    {"property_id": "C04", "reason": "routing is a pure function of (parsed configuration, envelope): no schedule, clock, fault or crash in the statement; deciding it is input generation against a reference router, not simulation"},
+    {"property_id": "C07", "reason": "DMARC verdict/action is a pure function of (From header, SPF/DKIM results, policy record, lookup outcome); the only asynchronous element is a single buffered hand-off without interleaving that changes the result"},
+    {"property_id": "C13", "reason": "DANE verification is a pure function of (TLSA RRset, TLS connection state); TLSA discovery under DNS faults is exercised as part of C05"},
+    {"property_id": "C15", "reason": "sender authorisation is a pure function of (tables, normalisers, authenticated user, MAIL FROM, header); nothing depends on time, order or faults"},
+    {"property_id": "C17", "reason": "pure string functions; no stream, timer, shared state or fault path"},
+    {"property_id": "C20", "reason": "pure parser over a byte string; the quantifier is over inputs only"},
+]
